@@ -54,6 +54,41 @@ func main() {
 	case "dump":
 		o.dump = true
 		os.Exit(check(&o))
+	case "ssa":
+		cs, err := loadContracts(o.repo)
+		if err != nil {
+			fmt.Fprintln(os.Stderr, err)
+			os.Exit(2)
+		}
+		key := o.funcFilter
+		if !strings.HasPrefix(key, modulePath) {
+			key = modulePath + "/" + key
+		}
+		pk := key
+		for {
+			i := strings.LastIndex(pk, ".")
+			if i < 0 {
+				break
+			}
+			pk = pk[:i]
+			if _, err := os.Stat(filepath.Join(o.repo, strings.TrimPrefix(pk, modulePath+"/"))); err == nil {
+				break
+			}
+		}
+		prog, err := loadProg(o.repo, cs, []string{pk})
+		if err != nil {
+			fmt.Fprintln(os.Stderr, err)
+			os.Exit(2)
+		}
+		fn := prog.ssaFunc(key)
+		if fn == nil {
+			fmt.Fprintln(os.Stderr, "not found:", key)
+			os.Exit(2)
+		}
+		fn.WriteTo(os.Stdout)
+		for _, an := range fn.AnonFuncs {
+			an.WriteTo(os.Stdout)
+		}
 	case "list":
 		cs, err := loadContracts(o.repo)
 		if err != nil {
